@@ -19,6 +19,7 @@
 (*  Q.gni(ni:Int!) gne(ne:E!) gnli(nli:[Int]!) gnin(nin:In!) : Int          *)
 (*  type M { a:Int b:Int c:Int o:O l:[O] }                                 *)
 (*  Q.d:D dl:[D]  type D { p:String q:Int r:String }  -- no resolvers: DefaultResolveFn on a map   *)
+(*  Q.el:[E] eln:[E]!  Q.uo:UO  union UO = TB | TA (no ResolveType)                                *)
 (*  Q.it:IT itl:[IT] ta:TA  interface IT (no ResolveType) { x }  TA, TB implement IT with IsTypeOf *)
 (***************************************************************************)
 EXTENDS GQLBase
@@ -45,6 +46,7 @@ S1 ==
                  F("i", N("I")), F("u", N("U")), F("il", TList(N("I"))), F("e", N("E")),
                  F("ll", TList(TList(N("O")))),
                  F("d", N("D")), F("dl", TList(N("D"))), F("it", N("IT")), F("itl", TList(N("IT"))), F("ta", N("TA")),
+                 F("el", TList(N("E"))), F("eln", TNN(TList(N("E")))), F("uo", N("UO")),
                  [name |-> "f", type |-> N("Int"),
                   args |-> << ArgD("x", N("Int"), IntV("7")), Arg("y", N("Int")),
                               Arg("z", TList(N("Int"))), Arg("in", N("In")), Arg("en", N("E")) >>],
@@ -80,6 +82,9 @@ S1 ==
                                   !.ifaces = <<"IT">>, !.isTypeOf = TRUE],
      TB |-> [Ty("OBJECT") EXCEPT !.fields = << F("x", N("String")), F("q", N("String")) >>,
                                   !.ifaces = <<"IT">>, !.isTypeOf = TRUE],
+     \* a union without ResolveType whose members are NOT declared alphabetically; a source whose runtime
+     \* type is "*" is accepted by the IsTypeOf of every member: the first declared member wins
+     UO |-> [Ty("UNION") EXCEPT !.members = <<"TB", "TA">>, !.defrt = "TB", !.noRT = TRUE],
      U |-> [Ty("UNION") EXCEPT !.members = <<"A", "B">>, !.defrt = "A"],
      E |-> [Ty("ENUM") EXCEPT !.values =
               << [name |-> "RED", internal |-> "red#0", deprecated |-> FALSE],
